@@ -17,7 +17,8 @@
   objects. With the `latest` flag a lifetime starts at the head by configuration; the checker re-anchors the
   frontier there (stated in `chkStart`), so nothing is claimed about blocks before that head.
 
-  Liveness ("every block is eventually handed over") is a consequence only under fairness of the environment
+  `runAll_histPrompt`: before a lifetime's first process death a deep-enough range is handled in the same round.
+  Full liveness ("every block is eventually handed over") is a consequence only under fairness of the environment
   (the head grows, failures are not permanent); what is proved is the safety half: no block can be passed over.
   Assumed: one model round = one iteration of the Go loops; `GetStartBlock`/`CalculateStartingBlock`/`New*Chain`
   are composed by `app.Run` as in `startOf` (generated fact, Oblig/C05.lean); handler-level: a failed fetch makes
@@ -323,6 +324,42 @@ theorem runAll_P05 (cfg : Cfg) (hwf : WF cfg) (w : Wiring) (stored0 : Option Int
     simp [hl] at hH; subst hH
     exact post_le cfg hwf _)
   simp [P05, h]
+
+/-- before the first process death a lifetime is a run of the scan loop of C04 -/
+theorem runLife_alive (cfg : Cfg) (l : List SRound) :
+    ∀ (cur stored : Option Int),
+      (runLife cfg cur stored l).1.take (alivePrefix l).length = run cfg cur (alivePrefix l) := by
+  induction l with
+  | nil => intro cur stored; simp [runLife, alivePrefix, run]
+  | cons x rs ih =>
+    intro cur stored
+    obtain ⟨r, crash⟩ := x
+    cases crash with
+    | some n => simp [runLife, alivePrefix, run]
+    | none =>
+      have := ih (step cfg cur r).1 (storeUpd stored (step cfg cur r).2)
+      simp only [alivePrefix, List.length_map] at this ⊢
+      simp [runLife, run, this]
+
+/-- **C05 (progress half that does not need fairness).** In every lifetime, before its first process death, a range
+    that is one confirmation deeper than required is handed to the first handler in the same round — so a relayer
+    whose scan stalls although the chain has moved on (e.g. because a retry changed a shared configuration value) is
+    not a behaviour of the model. `histPrompt` is evaluated on the real stacks' histories together with `P05`. -/
+theorem runAll_histPrompt (cfg : Cfg) (w : Wiring) (lifes : List (List SRound)) :
+    ∀ (stored : Option Int), histPrompt cfg lifes (runAll cfg w stored lifes) = true := by
+  induction lifes with
+  | nil => intro stored; simp [histPrompt, runAll]
+  | cons l ls ih =>
+    intro stored
+    have h := ih (runLife cfg (startOf cfg w stored) stored l).2
+    simp only [histPrompt, Bool.and_eq_true, beq_iff_eq, List.all_eq_true] at h ⊢
+    refine ⟨by simp [runAll, h.1], ?_⟩
+    intro x hx
+    simp only [runAll, List.zip_cons_cons, List.mem_cons] at hx
+    rcases hx with rfl | hx
+    · simp only [lifePrompt]
+      rw [runLife_alive]; exact run_traceOk cfg _ _
+    · exact h.2 x hx
 
 /-- the excluded point `latest = true`, stated: the lifetime starts at the head (BTC: nil start; EVM/Substrate: the
     aligned boot head) whatever the store holds -/
